@@ -373,21 +373,24 @@ theorem dagWitness_rejected :
      | .ok r => r.errors.isEmpty
      | _ => false) = false := by decide +kernel
 
+/-- … and not because of the end of the text: no message is left in the token source -/
+theorem dagWitness_clean : Src.endMessage dagWitness = none := by decide +kernel
+
 /-- the forward direction at full strength is false of the current parser -/
 theorem full_forward_false :
-    ¬ (∀ input : List Char, Doc.Sentence (PState.init input).kinds →
+    ¬ (∀ input : List Char, Doc.Sentence (PState.init input).kinds → Src.endMessage input = none →
         ∃ r, parse input = .ok r ∧ r.errors = []) := by
   intro hall
-  obtain ⟨r, hr, he⟩ := hall dagWitness dagWitness_sentence
+  obtain ⟨r, hr, he⟩ := hall dagWitness dagWitness_sentence dagWitness_clean
   have := dagWitness_rejected
   rw [hr] at this
   simp [he] at this
 
 /-- the same with the witness exhibited -/
 theorem full_forward_counterexample :
-    ∃ input : List Char, Doc.Sentence (PState.init input).kinds ∧
+    ∃ input : List Char, Doc.Sentence (PState.init input).kinds ∧ Src.endMessage input = none ∧
       ¬ ∃ r, parse input = .ok r ∧ r.errors = [] := by
-  refine ⟨dagWitness, dagWitness_sentence, ?_⟩
+  refine ⟨dagWitness, dagWitness_sentence, dagWitness_clean, ?_⟩
   rintro ⟨r, hr, he⟩
   have := dagWitness_rejected
   rw [hr] at this
